@@ -229,7 +229,11 @@ def simplify_math_iterators(source: str) -> str:
                 continue
             if node.func.id != "sum":
                 continue
-            yield node, _sum_range(arg)
+            try:
+                replacement = _sum_range(arg)
+            except Exception:  # sympy parses the text of the arguments, and cannot read all of python
+                continue
+            yield node, replacement
 
         elif core.match_template(arg, basic_collection_template):
             if any(core.walk(arg, ast.Attribute)):
@@ -239,7 +243,11 @@ def simplify_math_iterators(source: str) -> str:
                 for node in core.walk(arg, ast.Call)
             ):
                 continue
-            yield node, _sum_constants(arg.elts)
+            try:
+                replacement = _sum_constants(arg.elts)
+            except Exception:
+                continue
+            yield node, replacement
 
         elif core.match_template(arg, basic_comprehension_template):
             if any(core.walk(arg, (ast.Attribute, ast.Subscript))):
@@ -249,7 +257,11 @@ def simplify_math_iterators(source: str) -> str:
                 for node in core.walk(arg, ast.Call)
             ):
                 continue
-            yield node, _integrate_over(arg.elt, arg.generators)
+            try:
+                replacement = _integrate_over(arg.elt, arg.generators)
+            except Exception:
+                continue
+            yield node, replacement
 
 
 @processing.fix
